@@ -372,8 +372,16 @@ def _periodic_coeff(g, closure, tag):
     return arrs
 
 
-def _integral(phi, V):
-    return float(np.sum(V * np.asarray(phi.value)))
+def _integral(phi, V, reported=False):
+    """sum(V*value); for the library's own measure the number domainIntegral() reports is used,
+    after checking that it is that sum."""
+    mine = float(np.sum(V * np.asarray(phi.value)))
+    if reported:
+        lib = float(phi.domainIntegral())
+        if not abs(lib - mine) <= 64 * EPS * float(np.sum(np.abs(V * np.asarray(phi.value)))) + 1e-300:
+            raise AssertionError("domainIntegral() = %r is not sum(cellvolume*value) = %r" % (lib, mine))
+        return lib
+    return mine
 
 
 def _solve_closed_part(g, res):
@@ -402,7 +410,7 @@ def _solve_closed_part(g, res):
                             getattr(bc, U.SIDES[ax][0]).periodic = True
                             getattr(bc, U.SIDES[ax][1]).periodic = True
                     phi = pf.CellVariable(g.mesh, U.generic_array(g.dims, tag=7, signed=True), bc)
-                    I0 = [_integral(phi, V) for _, V in ms]
+                    I0 = [_integral(phi, V, mn == "cellvolume") for mn, V in ms]
                     A0 = [float(np.sum(V * np.abs(phi.value))) for _, V in ms]
                     kappa = 1.0
                     expd = [0.0 for _ in ms]     # drift allowed by the recorded seam findings
@@ -457,7 +465,7 @@ def _solve_closed_part(g, res):
                         res["precond_failed"] = res.get("precond_failed", 0) + 1
                         continue
                     for mi, (mname, V) in enumerate(ms):
-                        I1 = _integral(phi, V)
+                        I1 = _integral(phi, V, mname == "cellvolume")
                         A1 = float(np.sum(V * np.abs(phi.value)))
                         tol = 64 * EPS * max(kappa, 1.0) * max(A0[mi], A1) * 3 + 1e-300
                         if abs(I0[mi]) > 0:
@@ -561,7 +569,7 @@ def _solve_open_part(g, res):
                 if not np.all(np.isfinite(phi._value)):
                     res["precond_failed"] = res.get("precond_failed", 0) + 1
                     continue
-                I0 = [_integral(phi, V) for _, V in ms]
+                I0 = [_integral(phi, V, mn == "cellvolume") for mn, V in ms]
                 eq = [pf.transientTerm(phi, dt, 1.0), -pf.diffusionTerm(D)]
                 if "C" in terms:
                     eq.append(pf.convectionTerm(u))
@@ -575,7 +583,7 @@ def _solve_open_part(g, res):
                     res["precond_failed"] = res.get("precond_failed", 0) + 1
                     continue
                 for mi, (mname, V) in enumerate(ms):
-                    I1 = _integral(phi, V)
+                    I1 = _integral(phi, V, mname == "cellvolume")
                     flux = _boundary_flux(g, phi, D, u, terms, met, V)
                     lhs = (I1 - I0[mi]) / dt
                     sc = (abs(I1) + abs(I0[mi])) / dt + abs(flux) + float(np.sum(V * np.abs(phi.value))) * (1 + 1 / dt)
